@@ -13,7 +13,7 @@ pub fn meta() -> Meta {
         rule: "packets generated with heavy suffix sharing between owner, question and RDATA names (plus a size sweep that places \
 the first occurrence of a name at every offset 16370..16400 and repeats it later, and messages up to 65535 bytes) are serialised \
 with and without compression; both outputs are parsed and compared with each other and with the model; len(compressed) <= \
-len(plain); the writer-based compressed entry point is also run into a stream that already holds 1/2/7/300 bytes and its message must parse to the same packet. non-trivial = the compressed output contains at least one pointer (independent walker); distinct = hash of the model",
+len(plain); the writer-based compressed entry point is also run into a stream that already holds 1/2/7/300 bytes (a growable cursor, or a writer that accepts 3 bytes per call) and its message must parse to the same packet. non-trivial = the compressed output contains at least one pointer (independent walker); distinct = hash of the model",
         assumptions: &["same domain as C02", "pointer counting uses the reference typed walker"],
         exhaustive: false,
         min_distinct: 500,
@@ -67,10 +67,17 @@ pub fn check_one(ctx: &mut Ctx, family: &str, idx: u64, p: &PktM) {
     let k = [1usize, 2, 7, 300][(idx % 4) as usize];
     let streamed = crate::monitor::guard(|| {
         let lib = crate::bridge::to_lib(p).map_err(|e| e.to_string())?;
-        let mut cur = std::io::Cursor::new(vec![0xEEu8; k]);
-        cur.set_position(k as u64);
-        lib.write_compressed_to(&mut cur).map_err(|e| format!("{:?}", e))?;
-        Ok::<Vec<u8>, String>(cur.into_inner())
+        if (idx / 4) % 2 == 0 {
+            let mut cur = std::io::Cursor::new(vec![0xEEu8; k]);
+            cur.set_position(k as u64);
+            lib.write_compressed_to(&mut cur).map_err(|e| format!("{:?}", e))?;
+            Ok::<Vec<u8>, String>(cur.into_inner())
+        } else {
+            // the same through a writer that takes at most 3 bytes per call and is interrupted now and then
+            let mut w = super::c04::ShortWriter { buf: vec![0xEEu8; k], pos: k, calls: 0 };
+            lib.write_compressed_to(&mut w).map_err(|e| format!("{:?}", e))?;
+            Ok::<Vec<u8>, String>(w.buf)
+        }
     });
     match streamed {
         Err(pn) => ctx.panic_violation("write_compressed_to at a non-zero stream position", &pn, gen_case(family, idx, p, json!({"stream_offset": k}))),
